@@ -72,8 +72,10 @@ Definition effective (c : cfg) : cfg :=
 
 Definition sec : Z := 1000000000.
 
+(* the fixed TTL configured for a name, names compared case-insensitively; when the configuration names it
+   more than once the last line counts *)
 Definition fixed_ttl_ci (fixed : list (bytes * Z)) (host : bytes) : option Z :=
-  match find (fun p => bytes_eqb (lower (fst p)) (lower host)) fixed with
+  match find (fun p => bytes_eqb (lower (fst p)) (lower host)) (rev fixed) with
   | Some p => Some (snd p) | None => None end.
 
 Definition spec_deadline (fixed : list (bytes * Z)) (host : bytes) (ttl now : Z) : Z :=
@@ -205,9 +207,9 @@ Definition spec_step (c : cfg) (st : sstore) (now : Z) (o : op) (ob : obs) : lis
   | Insert name qt sc rname is_ip resp_ok nans ans ttl =>
       if resp_ok && negb is_ip then
         let k := skey_of name qt sc in
-        let last := match sfind k st with Some r => s_last r | None => 0 end in
         ([], c, sput k {| s_ans := ans; s_deadline := spec_deadline (c_fixed ec) rname ttl now;
-                          s_last := last; s_refreshing := false; s_known := true |} st)
+                          s_last := now;            (* a use = an insert or a lookup that is answered *)
+                          s_refreshing := false; s_known := true |} st)
       else ([], c, st)
   | Lookup name qt sc => let '(e, st') := spec_lookup ec st now (skey_of name qt sc) ob in (e, c, st')
   | Janitor _ =>
